@@ -115,10 +115,6 @@ impl<'a, F: Write + Seek> Chain<'a, F> {
         }
         Ok(())
     }
-
-    pub fn free(self) -> io::Result<()> {
-        self.allocator.free_chain(self.start_sector_id())
-    }
 }
 
 impl<'a, F> Seek for Chain<'a, F> {
